@@ -151,7 +151,7 @@ def leaves(mol, comps, level):
     for c in comps:
         levels.append(list(c) if level not in ('lite2', 'hub') else [c[0], c[-1]] if (len(c) > 1 and level != 'hub') else [c[0]])
     levels.append(list(range(len(styles))))
-    levels.append(['string'] if level == 'hub' else ['graph', 'string', 'graph-rev'] if level != 'lite2' else ['graph'])
+    levels.append(['string'] if level == 'hub' else ['graph', 'string', 'graph-rev', 'dicts-rev'] if level != 'lite2' else ['graph'])
 
     def succ(prefix):
         d = len(prefix)
@@ -228,6 +228,25 @@ def resolve(inp):
         full = s + '.' + fragstr
         cg, aa = MoleculeResolver.from_string(full).resolve_all()
         return cg, aa, full
+    if inp['via'] == 'dicts-rev':
+        # third constructor with fragment graphs that list their nodes and edges in reverse order (graphs that come
+        # from elsewhere need not be built in ascending key order)
+        import networkx as nx
+        from cgsmiles.read_fragments import read_fragments
+        s, _ = M.base_string(B)
+        if s is None:
+            return None, None, fragstr
+        lib = read_fragments(fragstr)
+        lib_r = {}
+        for name, g in lib.items():
+            h = nx.Graph()
+            for n_ in reversed(list(g.nodes)):
+                h.add_node(n_, **g.nodes[n_])
+            for a_, b_, d_ in reversed(list(g.edges(data=True))):
+                h.add_edge(b_, a_, **d_)
+            lib_r[name] = h
+        cg, aa = MoleculeResolver.from_fragment_dicts(s, [lib_r]).resolve_all()
+        return cg, aa, 'dicts(reversed node order) ' + s + '.' + fragstr
     if inp['via'] == 'graph-rev':
         # same graph, nodes and edges inserted in reverse order (iteration order != key order)
         import networkx as nx
